@@ -348,6 +348,17 @@ impl<'a> Parser<read::StrRead<'a>> {
     }
 }
 
+/// Verification-only observation hook (add-only, off by default).
+#[cfg(feature = "verif-hooks")]
+impl<'de, R: Read<'de>> Parser<R> {
+    /// Returns the byte offset of the next unread byte and the remaining
+    /// nesting depth budget.
+    #[doc(hidden)]
+    pub fn verif_state(&self) -> (usize, u8) {
+        (self.read.byte_offset(), self.remaining_depth)
+    }
+}
+
 macro_rules! overflow {
     ($a:ident * $radix:literal + $b:ident, $c:expr) => {
         $a >= $c / $radix && ($a > $c / $radix || $b > $c % $radix)
@@ -1298,6 +1309,8 @@ impl<'de, R: Read<'de>> Parser<R> {
             .extend_from_slice(buffer.format(exponent).as_bytes());
         // SAFETY: Unsafe should be OK here, as `itoa::Buffer::format()` should
         // never produce non-ASCII output.
+        #[cfg(feature = "verif-hooks")]
+        assert!(str::from_utf8(&self.scratch).is_ok(), "verif-hooks: ill-formed UTF-8 in f64_from_parts");
         let f: f64 = unsafe { str::from_utf8_unchecked(&self.scratch) }
             .parse()
             .map_err(|_| self.error(ErrorCode::NumberOutOfRange))?;
